@@ -192,7 +192,7 @@ class virtual_files:
                 if d:
                     os.makedirs(d, exist_ok=True)
                 with open(k, "wb") as f:
-                    f.write(v.encode("latin-1") if isinstance(v, str) else bytes(v))
+                    f.write(v.encode("utf-8") if isinstance(v, str) else bytes(v))
         return self
 
     def written(self, name):
